@@ -47,6 +47,28 @@ CHECKS = {
    note=("Trusted: TLC, spec/Big.tla (checked by MC_Big and lane-by-lane against the Rust primitives: disagreement is a tool error), "
          "harness/src/ivec.rs dispatch. 16-bit pairs are not exhaustive (boundary lattice). perp/perp_dot/rotate of 2-lane types not yet modelled."),
    ref="5 (C13), 2.1"),
+ "C03": dict(
+   technique="TLA+ exact integer linear algebra (Leibniz determinant, adjugate by minors) with TLC-checked theorems; enumeration of integer matrix families replayed exactly on every matrix type and backend",
+   text=("LinAlg.tla defines product, transpose, determinant (Leibniz over permutations), adjugate (signed minors) and inverse from the "
+         "mathematical definitions; on every enumerated matrix TLC checks det(AB)=det A det B, A adj A = det A I, (AB)^T = B^T A^T, "
+         "(AB)v = A(Bv), Leibniz = cofactor expansion. Families: all 4x4 {0,1} matrices (decides the multilinear determinant), 3x3 over "
+         "-1..1, 2x2 over -8..8, dense seeded -3..3, signed permutations, unimodular and +-2^k-determinant matrices (exact inverse), "
+         "rank-deficient (det exactly 0), affine transforms. Replayed bit-exactly (integers are exact in f32/f64) on Mat2/3/3A/4, "
+         "DMat2/3/4 and the affine types through every operator spelling in sse2 (debug, release, +fma), scalar-math and core-simd builds."),
+   note=("Trusted: TLC, harness/src/bin/lin.rs. The eps*kappa error bound for ill-conditioned real matrices is not decided; "
+         "non-exact inverses are checked relationally (inverse*det = adj within 2e-5 / 1e-12)."),
+   ref="5 (C03), 2.2"),
+ "C06": dict(
+   technique="TLA+ token register machine per matrix shape (complete two-step BFS over constructors/write paths/read paths), data-movement calls (minors, blocks, embeddings), and product laws on integer matrices; replay on all 11 matrix/affine types",
+   text=("Layout.tla fixes entry (r,c) at flat index c*R+r; TLC explores every two-step behaviour of the register machine for the five "
+         "shapes (2x2, 3x3, 4x4, affine 2x3 and 3x4) over pairwise-distinct tokens (NaN payloads, -0), checks that a write changes "
+         "exactly that entry, col/row agreement and transpose involution, and enumerates every minor (i,j), block, embedding and "
+         "affine<->matrix move; product laws (M v = sum v[c] col(c), (AB)v = A(Bv), transform_point = L p + t, transform_vector "
+         "ignores t, conversion commutes with composition) are decided exactly on integer matrices from MC_C03. Every case is replayed "
+         "bit-for-bit on Mat2/3/3A/4, DMat2/3/4, Affine2/3A, DAffine2/3 in sse2 (debug+release), scalar-math and core-simd layouts, "
+         "including Debug/Display (with and without precision)."),
+   note="Trusted: TLC, token palette, harness/src/mt.rs path table; from/to_cols_array are the base projection all other paths are compared to.",
+   ref="5 (C06)"),
 }
 
 PENDING = {}
